@@ -46,7 +46,9 @@ def scenario(rng):
         libs.append("(define-library (lib leaky) (import (scheme base)) (export leak get-plus) (begin (define (leak) importer-var) (define (get-plus a b) (+ a b))))")
         have["leaky"] = ["leak", "get-plus"]
     if rng.random() < 0.5:
-        libs.append("(define-library (lib plain) (import (scheme base)) (export k (rename inner outer)) (begin (define k %d) (define (inner x) (list x k))))" % rng.randint(10, 99))
+        # the library keeps macros to itself whose keywords are names the program gets from other libraries or defines itself
+        macros = "".join("(define-syntax %s (syntax-rules () ((%s) 'macro-local-to-plain) ((%s a) 'macro-local-to-plain) ((%s a b) 'macro-local-to-plain))) " % (m, m, m, m) for m in rng.sample([nx, pk, "reset!", "use1!", "double", hp, st, "importer-var", "get-plus"], rng.randint(0, 3)))
+        libs.append("(define-library (lib plain) (import (scheme base)) (export k (rename inner outer)) (begin %s(define k %d) (define (inner x) (list x k))))" % (macros, rng.randint(10, 99)))
         have["plain"] = ["k", "outer"]
     if rng.random() < 0.6:
         # renaming exports whose external names collide with internal names of other exported bindings (chains and swaps)
